@@ -1098,6 +1098,9 @@ impl TransportHandle {
 
         self.shutdown.cancel();
         self.dual_node.shutdown_endpoints().await;
+        // the hook's extra sender would otherwise keep the dispatcher channel open for ever
+        #[cfg(feature = "verif-hooks")]
+        self.verif.clear_inject_tx();
 
         // Await recv system tasks
         let handles: Vec<_> = self.recv_handles.write().await.drain(..).collect();
